@@ -37,6 +37,17 @@ def loc_case(draw, tier="quick"):
         y1, y2 = sorted([draw(gen.dyadic(3, -90, 90)), draw(gen.dyadic(3, -90, 90))])
         if bmode == "degenerate":
             x2, y2 = x1, y1
+        elif draw(st.integers(0, 3)) == 0:
+            # an edge exactly on the prime meridian / equator (0 is a coordinate like any other)
+            which = draw(st.sampled_from(["x1", "x2", "y1", "y2", "x1y1", "x2y2"]))
+            if "x1" in which and x2 >= 0:
+                x1 = 0.0
+            if "x2" in which and x1 <= 0:
+                x2 = 0.0
+            if "y1" in which and y2 >= 0:
+                y1 = 0.0
+            if "y2" in which and y1 <= 0:
+                y2 = 0.0
         bbox = [x1, y1, x2, y2]
     use_range = draw(st.booleans())
     lo_lim, la_lim = (180, 90) if use_range else (540, 100)
@@ -103,6 +114,7 @@ def check_loc(case, rec):
     labels = [lab for lab, on in (("on_box_edge", on_edge), ("suspect_hop_at_fail_point", both),
                                   ("hop_next_to_partial", partial_adj), ("latlon_swap_matters", swap),
                                   ("hop_on_range_max", hop_on), ("default_box", case["bbox"] is None),
+                                  ("box_edge_zero", case["bbox"] is not None and 0.0 in case["bbox"]),
                                   ("range_max", rm is not None),
                                   ("partial_position", any(model.miss(a) != model.miss(b) for a, b in zip(lon, lat))),
                                   ("missing_position", any(model.miss(a) and model.miss(b) for a, b in zip(lon, lat)))) if on]
